@@ -152,6 +152,18 @@ class CubeGetSed(Contract):
         names = c.A(c.attr(a.self, '_names'))
         return {'ValueError': bnot(c.Any(names.n, lambda m: names[m] == a.model_name))}
 
+    def result(self, c, a):
+        # at a call site: a fresh SED related to the cube by `ensures`
+        from sedvc.sym import fresh_name
+        cube = a.self
+        vq = c.attr(cube, '_val')
+        M, A, W = c.A(vq).shape
+        tag = fresh_name('cubesed')
+        uq = c.attr(cube, '_unc')
+        return c.obj('sedfitter.sed.sed.SED', name=a.model_name, distance=c.attr(cube, '_distance'), _wav=c.attr(cube, '_wav'), _nu=None,
+                     _apertures=c.attr(cube, '_apertures'), _flux=Quantity(c.fresh_array(tag + '_flux', (A, W)), vq.unit),
+                     _error=Quantity(c.fresh_array(tag + '_err', (A, W)), uq.unit) if uq is not None else None)
+
     def ensures(self, c, a, result, old):
         names = c.A(c.attr(a.self, '_names'))
         wav, V = c.A(c.attr(a.self, '_wav')), c.A(c.attr(a.self, '_val'))
